@@ -217,7 +217,8 @@ where
 
     #[inline(always)]
     pub fn read_at(&self, index: usize, reader: &Reader) -> Result<T> {
-        let len = self.base.len();
+        // Only stored values live in the region; buffered ones must not be read from it.
+        let len = self.stored_len();
         if likely(index < len) {
             Ok(self.unchecked_read_at(index, reader))
         } else {
